@@ -647,6 +647,26 @@ fn c16_single_arc_space(orders: &'static [usize]) -> Space {
             abs.a.insert((n - 1, n - 2));
         }
         conv_all(&abs, ctx);
+        if idx % 2 == 1 {
+            // the largest id is n-1, so From<arcs> must give order n: the SAME value (==, hash)
+            // as the digraph built by empty(n) + add_arc
+            ctx.execs_n(2);
+            let arcs: Vec<(usize, usize)> = abs.a.iter().copied().collect();
+            let ok = guarded(|| {
+                use std::hash::{Hash, Hasher};
+                let h = |x: &dyn Fn(&mut std::collections::hash_map::DefaultHasher)| {
+                    let mut s = std::collections::hash_map::DefaultHasher::new();
+                    x(&mut s);
+                    s.finish()
+                };
+                let (fx, bx) = (AX::from(arcs.clone()), mk::<AX>(&abs));
+                let (fe, be) = (EL::from(arcs.clone()), mk::<EL>(&abs));
+                (fx == bx && h(&|s| fx.hash(s)) == h(&|s| bx.hash(s)) && fx.cmp(&bx) == std::cmp::Ordering::Equal, fe == be && h(&|s| fe.hash(s)) == h(&|s| be.hash(s)))
+            });
+            if ok != Ok((true, true)) {
+                ctx.fail(format!("From<arcs> does not build the same value (==, cmp, hash) as empty({n}) + add_arc: (AdjacencyMatrix ok, EdgeList ok) = {ok:?}"), json!({"arcs": arcs}));
+            }
+        }
         if (u * n + v) % 64 == 63 || (u * n + v) % 64 == 0 {
             ctx.nontrivial();
             ctx.tag("single_bit_at_a_word_edge");
